@@ -174,6 +174,7 @@ func watchBubble(spec RunSpec, res *Result) {
 		var buf int
 		steps, buf = GenWatchSteps(r)
 		cfg.Chaos = buf // source buffer size
+		cfg.LateResultChan = r.Chance(0.4)
 	}
 	res.Config = cfg
 	res.Steps = steps
@@ -198,7 +199,20 @@ func watchBubble(spec RunSpec, res *Result) {
 	if err != nil {
 		harnessf("watch: %v", err)
 	}
-	rc := w.ResultChan()
+	// a consumer may fetch the result channel once at the start or only when it
+	// first reads (possibly after another goroutine of it has called Stop)
+	var rcOnce <-chan watch.Event
+	getRC := func() <-chan watch.Event {
+		if rcOnce == nil {
+			rcOnce = w.ResultChan()
+		}
+		return rcOnce
+	}
+	if !cfg.LateResultChan {
+		getRC()
+	} else {
+		res.Counters["probe.late_result_chan"]++
+	}
 
 	// consumer
 	type got struct {
@@ -219,7 +233,7 @@ func watchBubble(spec RunSpec, res *Result) {
 				return
 			}
 			select {
-			case ev, ok := <-rc:
+			case ev, ok := <-getRC():
 				received = append(received, got{ev, ok})
 				if !ok {
 					sawClosed = true
@@ -375,9 +389,10 @@ func watchBubble(spec RunSpec, res *Result) {
 	stuckSend := false
 	if !closedNow {
 		probe := make(chan bool, 1)
+		prc := getRC()
 		go func() {
 			select {
-			case _, ok := <-rc:
+			case _, ok := <-prc:
 				probe <- ok
 			case <-quit:
 			}
